@@ -18,6 +18,40 @@ MUTATORS = {"update", "pop", "popitem", "clear", "setdefault", "append", "extend
 COPIES = {"dict", "OrderedDict", "list", "tuple", "copy", "deepcopy", "sorted"}
 
 
+def _dict_display(v: ast.AST) -> bool:
+    return isinstance(v, (ast.Dict, ast.DictComp)) or (
+        isinstance(v, ast.Call) and (dotted(v.func) or "").split(".")[-1] in ("dict", "OrderedDict"))
+
+
+def _dict_slots(idx: ProgramIndex, base, fn_node: ast.AST, v: ast.AST, depth: int = 0) -> List[bool]:
+    """Per returned slot (one slot for a plain value): is the value a dictionary built here?  Follows locals of the function and
+    helpers of the base class / its module that build and return the dictionaries."""
+    if isinstance(v, ast.Tuple):
+        return [all(_dict_slots(idx, base, fn_node, x, depth)) for x in v.elts]
+    if _dict_display(v):
+        return [True]
+    if isinstance(v, ast.Name):
+        binds = [n.value for n in ast.walk(fn_node) if isinstance(n, ast.Assign) and len(n.targets) == 1
+                 and isinstance(n.targets[0], ast.Name) and n.targets[0].id == v.id]
+        return [bool(binds) and all(_dict_display(b) for b in binds)]
+    if isinstance(v, ast.Call) and depth < 3:
+        f = v.func
+        callee = None
+        if isinstance(f, ast.Attribute) and isinstance(f.value, ast.Name) and f.value.id in ("self", "cls"):
+            callee = idx.resolve_method(base, f.attr)
+        elif isinstance(f, ast.Attribute) and isinstance(f.value, ast.Name) and f.value.id == base.name:
+            callee = idx.resolve_method(base, f.attr)
+        elif isinstance(f, ast.Name):
+            q = idx.resolve_name(base.module, f.id)
+            callee = idx.func_by_qual.get(q) if q else None
+        if callee is not None:
+            rets = [n.value for n in walk_body(callee) if isinstance(n, ast.Return) and n.value is not None]
+            slots = [_dict_slots(idx, base, callee.node, r, depth + 1) for r in rets]
+            if slots and len({len(x) for x in slots}) == 1:
+                return [all(col) for col in zip(*slots)]
+    return [False]
+
+
 def record_containers(idx: ProgramIndex) -> Set[str]:
     base = idx.operator_base()
     init = base.methods.get("__init__")
@@ -25,11 +59,15 @@ def record_containers(idx: ProgramIndex) -> Set[str]:
     if init is None:
         return out
     for n in walk_body(init):
-        if isinstance(n, ast.Assign) and len(n.targets) == 1 and isinstance(n.targets[0], ast.Attribute) \
-                and isinstance(n.targets[0].value, ast.Name) and n.targets[0].value.id == "self":
-            v = n.value
-            if isinstance(v, (ast.Dict, ast.DictComp)) or (isinstance(v, ast.Call) and (dotted(v.func) or "").split(".")[-1] in ("dict", "OrderedDict")):
-                out.add(n.targets[0].attr)
+        if not (isinstance(n, ast.Assign) and len(n.targets) == 1):
+            continue
+        t = n.targets[0]
+        tgts = list(t.elts) if isinstance(t, ast.Tuple) else [t]
+        if not all(isinstance(x, ast.Attribute) and isinstance(x.value, ast.Name) and x.value.id == "self" for x in tgts):
+            continue
+        slots = _dict_slots(idx, base, init.node, n.value)
+        if len(slots) == len(tgts):
+            out.update(x.attr for x, ok in zip(tgts, slots) if ok)
     return out
 
 
